@@ -963,10 +963,17 @@ func proxyDriverSurface() *surface {
 
 var tokens = []string{".", "/", "a", "%2e", "%2f", "%25", "..", "\\"}
 
+// siblingTokens is a second, smaller alphabet that can spell names which
+// resolve to SIBLINGS of the store directories whose names start with a store
+// directory's own base name ("../cachea/a": a containment check by string prefix
+// without a separator boundary accepts those).
+var siblingTokens = []string{"..", "/", "cache", "upload", "a", "%2f"}
+
 // params returns every distinct string of <= maxLen tokens, plus the
 // percent-encoded form of each (url.PathEscape), sorted.
 func params(maxLen int) (all []string, nSeq int) {
 	set := map[string]struct{}{}
+	var alphabet []string
 	var rec func(prefix string, depth int)
 	rec = func(prefix string, depth int) {
 		if depth > 0 {
@@ -977,9 +984,15 @@ func params(maxLen int) (all []string, nSeq int) {
 		if depth == maxLen {
 			return
 		}
-		for _, t := range tokens {
+		for _, t := range alphabet {
 			rec(prefix+t, depth+1)
 		}
+	}
+	alphabet = tokens
+	rec("", 0)
+	alphabet = siblingTokens
+	if maxLen > 4 {
+		maxLen = 4 // the sibling family is only needed up to "../cachea/a"-like names
 	}
 	rec("", 0)
 	for s := range set {
@@ -1124,7 +1137,7 @@ func main() {
 	ps, nSeq := params(maxLen)
 	names := directNames(ps)
 	run.Rule = fmt.Sprintf("all %d token sequences of length 1..%d over {. / a %%2e %%2f %%25 .. \\} -> %d distinct URL parameter strings (each raw and url.PathEscape'd) substituted into every parameterised route of the real build-index tag server and origin blob server (ServeHTTP; {digest} parameters also with a leading `sha256:`), and %d distinct unescaped names passed to the SimpleStore/CAStore APIs and to the proxy storage driver's _uploads/<id> paths; every case is run in a bare and in a planted sandbox (files named `data` beside and above the store directories). A case is counted distinct and non-trivial when the router/API delivered the string to the code under test: key = (surface, route or call, name as seen after unescaping).", nSeq, maxLen, len(ps), len(names))
-	run.Assume("small-scope: names of at most " + fmt.Sprint(maxLen) + " tokens over the 8-token hostile alphabet; longer names and other bytes (NUL, unicode, other percent escapes) are not enumerated")
+	run.Assume("small-scope: names of at most " + fmt.Sprint(maxLen) + " tokens over the 8-token hostile alphabet plus all sequences of at most 4 tokens over {.. / cache upload a %2f} (names of siblings that share a store directory's base name as prefix); longer names and other bytes (NUL, unicode, other percent escapes) are not enumerated")
 	run.Assume("observer: before/after snapshot (path,type,size,mtime,sha256) of the whole parent tree of the store directories; creation/modification/deletion outside is always seen, a pure read outside is seen only when its content reaches the response (sentinel contents are searched in every response body / returned byte slice)")
 	run.Assume("remote services (storage backend, other origins, neighbours, write-back queue, tag replication) are fakes; names handed to them are not files of this server")
 	run.Assume("HTTP layer modelled as net/http does: request target parsed by url.ParseRequestURI, no path cleaning before the chi router")
